@@ -414,8 +414,9 @@ main(void)
 			hc_puthex(n ? elasticarray_get(EA, 0, 1) : NULL, n);
 			L2C();
 		} else if (hc_is("ea_dup", 1)) {
-			void * buf = NULL;
-			size_t nrec = 0;
+			/* poisoned: a successful call must have written both of them */
+			void * buf = (void *)(uintptr_t)0x5a5a5a5a5a5a5a58ULL;
+			size_t nrec = (size_t)0xdeadbeefdeadbeefULL;
 			int rc;
 
 			LIB(rc = elasticarray_exportdup(EA, &buf, &nrec, num(1)));
@@ -427,8 +428,8 @@ main(void)
 			}
 			L2C();
 		} else if (hc_is("ea_export", 1)) {
-			void * buf = NULL;
-			size_t nrec = 0, size = EA_SIZE();
+			void * buf = (void *)(uintptr_t)0x5a5a5a5a5a5a5a58ULL;
+			size_t nrec = (size_t)0xdeadbeefdeadbeefULL, size = EA_SIZE();
 			int rc;
 
 			LIB(rc = elasticarray_export(EA, &buf, &nrec, num(1)));
